@@ -164,12 +164,19 @@ class C11(Prop):
             else:
                 it = sx.struct('X', fields_s(*variants[0]), attrs=tattrs)
                 kw = '(struct ('
-            tl = [('Default', None)]
+            # Default alone, or next to another derived trait (before / after it, same list or a stacked one): the helper
+            # attributes of Default are read wherever Default stands in the request
+            co = rng.randrange(5)
+            D, C = ('Default', None), ('Clone', None)
+            lists = [[[D]], [[D, C]], [[C, D]], [[D], [C]], [[C], [D]]][co]
+            tl = lists[0]
+            if len(lists) > 1:
+                it = kw + sx.a_derive_ex(sx.dx(lists[1])) + ' ' + it[len(kw):]
             req = sx.inv_attr(sx.dx(tl), it) if mode == 'attr' else sx.inv_derive(
                 kw + sx.a_derive_ex(sx.dx(tl)) + ' ' + it[len(kw):])
             if reject == 'value' and not marker:
                 reject = 'none' if nvar > 1 else None
-            feats = ['enum%d' % nvar if is_enum else 'struct', mode] + (['type-value'] if type_value else []) + \
+            feats = ['enum%d' % nvar if is_enum else 'struct', mode, 'co%d' % co] + (['type-value'] if type_value else []) + \
                     (['reject-' + reject] if reject else []) + (['bound'] if with_bound else [])
             for kind, fl in variants:
                 for (_, tn), e, _ in fl:
